@@ -98,6 +98,52 @@ def _feasible(pairs, sigma):
     return not any(state.get(u) is None and cyc(u) for u in list(edges))
 
 
+def _is_zero(x):
+    return x == 0 and not isinstance(x, bool) or (isinstance(x, tuple) and len(x) == 2 and x[0] == "c" and x[1] == 0)
+
+
+def _difference(d):
+    """(x, y, narrowed_to) if d is `x - y` of two component variables, possibly converted: narrowed_to names a signed type
+    narrower than int that the difference was converted to (then its sign is no longer the order of x and y), else None."""
+    narrowed = None
+    while isinstance(d, tuple) and d and d[0] in ("icast", "cast"):
+        if d[0] == "icast":
+            w = ev.INT_WIDTH.get(d[1])
+            if w and w[0] < 32:
+                narrowed = d[1]
+        d = d[2]
+    if isinstance(d, tuple) and len(d) == 4 and d[0] in ("iop", "sub") and (d[0] == "sub" or d[1] == "-"):
+        x, y = (d[2], d[3]) if d[0] == "iop" else (d[1], d[2])
+        if _leafname(x) is not None and _leafname(y) is not None:
+            return x, y, narrowed
+    if isinstance(d, tuple) and len(d) == 3 and d[0] == "sub" and _leafname(d[1]) is not None and _leafname(d[2]) is not None:
+        return d[1], d[2], narrowed
+    return None
+
+
+def rewrite_differences(term, narrowed):
+    """`(x - y) op 0` is `x op y` for the small integer and the floating-point component types (no wrap-around, and for
+    floating point x - y is zero exactly when x == y on finite values); a difference narrowed below int first is recorded."""
+    if not isinstance(term, tuple) or not term:
+        return term
+    if term[0] == "cmp" and len(term) == 4:
+        for a, b, flip in ((term[2], term[3], False), (term[3], term[2], True)):
+            if _is_zero(b):
+                d = _difference(a)
+                if d is not None:
+                    x, y, nar = d
+                    if nar and term[1] not in ("==", "!="):      # (wrap-around keeps zero / non-zero: == and != survive the narrowing)
+                        narrowed.append((nar, term))
+                    op = term[1]
+                    if flip:
+                        op = {"<": ">", ">": "<", "<=": ">=", ">=": "<="}.get(op, op)
+                    return ("cmp", op, x, y)
+        return term
+    if term[0] in ("not", "and", "or", "g"):
+        return (term[0],) + tuple(rewrite_differences(x, narrowed) for x in term[1:])
+    return term
+
+
 def decide(term, left_slots, right_slots, op):
     """term: boolean term of `left op right`; slots: lists of leaf names in declared order.
     Returns (ok, detail, n_cases).  Spec: lexicographic order over the slots.
@@ -110,6 +156,12 @@ def decide(term, left_slots, right_slots, op):
     lidx = {s: i for i, s in enumerate(left_slots)}
     ridx = {s: i for i, s in enumerate(right_slots)}
     atoms = []
+    narrowed = []
+    term = rewrite_differences(term, narrowed)
+    if narrowed:
+        return (False, "the result is decided by the sign of a difference of two components that was first converted to %s: the difference of two such values "
+                       "does not fit, it wraps around when they differ by half the range or more, and then the sign is the opposite of their order (%s)"
+                % (narrowed[0][0], ev.show(narrowed[0][1])[:160]), 0)
     collect_atoms(term, atoms)
 
     def var(name):
